@@ -59,8 +59,8 @@ def n(e):
 
 OPS = ["==", "!=", "in", "notin", "empty", "notempty", "matches", "notmatches"]
 PATHS = [["a"], ["foo", "bar"], ["a", "0"], ["a", "b c"], ["x1", "y", "2"], ["a/b", "c"], ["a", "007"], ["m", "a~b"], ["m", "a/b"], ["m", "a~1b"], ["m", "~0~1"], ["not"], ["a", "in"], ["a", ""],
-         ["a", "."], ["a", ".."], ["r", "q\"x"], ["k", "é"]]
-VALS = ["1", "x", "", "hello world", "1.5", "-3", "true", "/usr/bin", "a\"b", "a`b", "a\\b", "é", "foo.bar", "v1.2", "a\nb", "0x10", "not", "in", " ", "a\tb", "a/b", "12abc"]
+         ["a", "."], ["a", ".."], ["notes"], ["android", "or1"], ["a", "%s"], ["inner", "all"], ["r", "q\"x"], ["k", "é"]]
+VALS = ["1", "x", "", "hello world", "1.5", "-3", "true", "/usr/bin", "a\"b", "a`b", "a\\b", "é", "foo.bar", "v1.2", "a\nb", "0x10", "not", "in", " ", "a\tb", "a/b", "12abc", "100%", "%d%s", "a\\"]
 
 
 def random_tree(rnd, depth):
